@@ -667,17 +667,20 @@ class UniformTime(np.ndarray, TimeInterface):
                 sampling_rate = Frequency(1.0 / sampling_interval,
                                           time_unit=time_unit)
 
-        # Calculate the duration, if that is not defined:
+        # 'cast' the time inputs as TimeArray
+        sampling_interval = TimeArray(sampling_interval, time_unit=time_unit)
+
+        # Calculate the duration, if that is not defined, from the interval in
+        # whole base units (length * a float interval can round to one base
+        # unit more than length intervals, which added a sample):
         if duration is None:
             duration = length * sampling_interval
 
-        # 'cast' the time inputs as TimeArray
         duration = TimeArray(duration, time_unit=time_unit)
         # If data is given - the t0 is taken from there:
         if t0 is None:
             t0 = data.t0 if isinstance(data, UniformTime) else 0
         t0 = TimeArray(t0, time_unit=time_unit)
-        sampling_interval = TimeArray(sampling_interval, time_unit=time_unit)
 
         # in order for time[-1]-time[0]==duration to be true (which it should)
         # add the sampling_interval to the stop value:
